@@ -840,8 +840,8 @@ Qed.
    iterateAllChunks of a table opened from written bytes), ProofsStore*.v
    (store_refines_map: the whole store state machine refines the abstract map;
    reads_agree).
-   Still NOT proved for C01: batches_cover (read batching arithmetic, IO only);
-   journal and archive sources inside a store; the codec-generic form of the final
+   ProofsBatch.v: batches_cover (read batching).
+   Still NOT proved for C01: journal and archive sources inside a store; the codec-generic form of the final
    simulation (the table- and store-level lemmas are generic in crc / compress /
    decompress; the last induction over run_ops is for the instance the correspondence
    runs, crc0 / comp0 / decomp0). *)
